@@ -18,11 +18,12 @@ Q == 39
 LitAtoms == { NullL, IntL(1), IntL(-2), IntL(0), Lit("Float", "1.5"), Lit("Float", "-2e3"), Lit("Float", "3.25E-2"),
               BoolL("true"), BoolL("false"),
               StrL(<<>>), StrL(<<111, Q, 114>>), StrL(<<Q>>), StrL(<<Q, Q>>), StrL(<<97, 32, 37, 95, 92, 34>>), StrL(<<233, 128165>>),
-              Lit("Geography", "POINT(1 2)"), Lit("Date", "2020-02-29"), Lit("Time", "23:59:59.123"),
+              Lit("Geography", "POINT(1 2)"), Lit("Geography", "POINT(1 2) -- O''Hare"), Lit("Date", "2020-02-29"), Lit("Time", "23:59:59.123"),
               Lit("DateTime", "2020-02-29T12:30:00Z"), Lit("DateTime", "1999-12-31T23:59+01:00"),
               Lit("Duration", "P1DT2H"), Lit("Duration", "-P1Y2M3DT4H5M6.5S"),
               Lit("GUID", "01234567-89ab-cdef-0123-456789abcdef") }
 IdAtoms == { a, Id(<<"ns">>, "b"), Id(<<"x", "y">>, "z"), Attr(a, "p"), Attr(Attr(a, "p"), "q"),
+             Attr(Id(<<"ns">>, "b"), "p"), Attr(Attr(Id(<<"ns">>, "b"), "p"), "q"), Coll(Attr(Attr(Id(<<"x", "y">>, "z"), "p"), "q"), "any", None),
              Coll(Id0("c"), "any", None), Coll(Attr(a, "cs"), "any", None), Call(Id0("now"), <<>>) }
 Atoms == IF Profile = "ops" THEN {a, one, StrL(<<111, Q, 114>>)} ELSE LitAtoms \cup IdAtoms
 Brackets == { Call(Id0("tolower"), <<E>>), Call(Id0("concat"), <<E, one>>),
